@@ -1,17 +1,6 @@
-mod desc;
-mod engine;
-mod fmts;
-mod gen;
-mod lexgen;
-mod peg;
-mod pipes;
-mod plan;
-mod printer;
-mod props;
-mod strgen;
-mod wf;
 
-use engine::*;
+use nvh::engine::*;
+use nvh::props;
 use std::path::PathBuf;
 
 fn registry() -> Vec<&'static Prop> {
@@ -24,7 +13,48 @@ fn main() {
         eprintln!("usage: nvh <ID> quick|thorough [--stream NAME] | nvh <ID> --replay <file>");
         std::process::exit(2);
     }
+    if args[1] == "corpus" {
+        // nvh corpus <dir> <n>: deterministic seed corpus for the fuzz targets (valid + mutated texts)
+        let dir = PathBuf::from(&args[2]);
+        let n: usize = args.get(3).and_then(|s| s.parse().ok()).unwrap_or(200);
+        std::fs::create_dir_all(&dir).unwrap();
+        let mut k = 0;
+        for fi in 0..3usize {
+            let strat = nvh::strgen::any_string(fi);
+            for (_, s) in draw(&strat, 7 + fi as u64, n) {
+                let mut bytes = vec![fi as u8, 0x55, 0xaa];
+                bytes.extend(s.as_bytes());
+                std::fs::write(dir.join(format!("gen-{k:05}")), bytes).unwrap();
+                k += 1;
+            }
+        }
+        println!("wrote {k} corpus files to {}", dir.display());
+        return;
+    }
     install_panic_hook();
+    if args[1] == "fuzz-artifact" {
+        // nvh fuzz-artifact <target> <file>: decode a libFuzzer artifact, confirm it with the
+        // catch_unwind-based oracle and turn it into a replay file + VIOLATION line
+        let data = std::fs::read(&args[3]).unwrap_or_default();
+        let root = std::env::var("VERIF_ROOT").map(PathBuf::from).unwrap_or_else(|_| PathBuf::from("/verif"));
+        let Some(d) = nvh::fuzzglue::decode(&data) else {
+            println!("artifact too short to decode");
+            std::process::exit(2);
+        };
+        let mut code = 0;
+        for (id, stream, case, r) in nvh::fuzzglue::oracle(&args[2], &d) {
+            if let Err(f) = r {
+                let sh = Shared::new(Box::leak(id.to_string().into_boxed_str()), Tier::Thorough, 0, root.clone());
+                sh.report_violation(stream, &case, &f);
+                code = 1;
+            }
+        }
+        if code == 0 {
+            println!("artifact {} does not fail the oracle in isolation (input {:?})", args[3], d.s);
+            code = 2;
+        }
+        std::process::exit(code);
+    }
     let root = std::env::var("VERIF_ROOT").map(PathBuf::from).unwrap_or_else(|_| PathBuf::from("/verif"));
     let id = args[1].as_str();
     let Some(prop) = registry().into_iter().find(|p| p.id == id) else {
